@@ -1,5 +1,5 @@
 (** Request dispatch: one request line in, one response line out. *)
-From Cel.Model Require Export Wire Arith Compare Macros Parser Refs.
+From Cel.Model Require Export Wire Arith Compare Macros Parser Refs WireData.
 Open Scope string_scope.
 
 Definition bad (why : string) : sexp := tagged "bad-request" [Atom why].
@@ -106,6 +106,26 @@ Definition handle (req : sexp) : sexp :=
           | COutOfFuel => Atom "(out-of-fuel)"
           end
       | None => bad "refs"
+      end
+  | SList [Atom "ser"; d] =>
+      match sdata_of_sexp d with
+      | Some d' => sexp_of_outcome sexp_of_value (to_value d')
+      | None => bad "sdata"
+      end
+  | SList [Atom "serjson"; d] =>
+      match sdata_of_sexp d with
+      | Some d' => sexp_of_outcome sexp_of_json (json_direct d')
+      | None => bad "sdata"
+      end
+  | SList [Atom "json"; v] =>
+      match value_of_sexp v with
+      | Some v' => sexp_of_outcome sexp_of_json (json_of_value v')
+      | None => bad "value"
+      end
+  | SList [Atom "unjson"; j] =>
+      match json_of_sexp j with
+      | Some j' => sexp_of_outcome sexp_of_value (to_value (sdata_of_json j'))
+      | None => bad "json"
       end
   | SList [Atom "echo"; a] =>
       match value_of_sexp a with
